@@ -125,8 +125,8 @@ pub fn run(ctx: &Ctx) {
     ctx.set_rule("random: (hash, 1..8 levels over W{1,2,4,8} x H{2,5,10} fitted to a cost budget, seed, counter from {0,1,last,last-1,subtree boundaries,random} written into the key blob, message from a length menu 0..8KiB) -> sign through hbs_lms::sign / SigningKey::try_sign / try_sign_with_aux, without aux data, with a zeroed aux buffer or with the buffer key generation filled -> must verify through verify(), VerifyingKey::verify(Signature) and (VerifierSignature); sweep: every counter of the complete lifetime of small shapes. Non-trivial = not the suite's point (3x W1/H5 at counter 0); distinct by serialized case.");
     ctx.assume("LmsH2 (type code 1) is enabled through the verif-hooks feature; production builds reject it");
     ctx.assume("trees of height >= 15 are never built");
-    let budget = ctx.tier.pick(2_500_000u64, 40_000_000u64);
-    let cases = ctx.tier.pick(1_200u32, 16_000u32);
+    let budget = ctx.tier.pick(2_500_000u64, 30_000_000u64);
+    let cases = ctx.tier.pick(1_200u32, 10_000u32);
     let sel = std::sync::atomic::AtomicU32::new(0);
     ctx.random(
         "sign_verify",
